@@ -70,7 +70,8 @@ CANARIES = {
     "C08": [
         ("validate-skipped", "stix2/markings/granular_markings.py", "delete-call-stmt", ["add_markings", "utils.validate"], "C08.every-function"),
         ("super-chain-cut", "stix2/v20/sdo.py", "delete-call-stmt", ["Indicator._check_object_constraints", "super("], "C08.every-construction"),
-        ("descent-dict-only", "stix2/markings/utils.py", "text", ["isinstance(varobj, collections.abc.Mapping)", "isinstance(varobj, dict)"], "C08.descends-into-objects"),
+        ("descent-dict-only", "stix2/markings/utils.py", "text", ["    if isinstance(value, collections.abc.Mapping):", "    if isinstance(value, dict):"], "C08.descends-into-objects"),
+        ("nested-lists-not-walked", "stix2/markings/utils.py", "text", ["            for descendant in _iterpath_below(item, path):", "            for descendant in (iterpath(item, path) if isinstance(item, collections.abc.Mapping) else ()):"], "C08.descends-into-objects"),
         ("later-step-lower-case-only", "stix2/properties.py", "text", ["|[a-zA-Z0-9_-]{1,256}))*|id)", "|[a-z0-9_-]{1,250}))*|id)"], "C08.syntax-agreement"),
         ("first-selector-only", "stix2/markings/utils.py", "loop-once", ["validate"], "C08.reject"),
     ],
